@@ -862,6 +862,10 @@ func (un *Unit) evCall(e *ECall, sc *Scope) SV {
 			return SV{t: "(bv2nat " + x.t + ")", sort: "Int"}
 		}
 		return SV{t: x.t, typ: types.Typ[types.Int], sort: x.sortIn(un.u)}
+	case "payload":
+		// payload(x): the pointer stored in interface value x (0 for a typed nil pointer or a nil interface)
+		x := arg(0)
+		return SV{t: "(i_val " + x.t + ")", sort: "Int"}
 	case "now":
 		return SV{t: un.clock(sc.cur), typ: types.Typ[types.Int]}
 	case "fresh":
